@@ -124,10 +124,11 @@ Section R.
     apply S_void; assumption.
   Qed.
 
-  Lemma br_safe : safe s_br.
+  Lemma br_safe : safe (openTag c s_brname ++ [10]).
   Proof.
-    change s_br with (([60] ++ [98;114] ++ [] ++ [62]) ++ [10]). apply S_cat.
-    - apply S_void; [reflexivity|constructor].
+    unfold openTag. apply S_cat.
+    - replace (openTagAttr c s_brname ++ [62]) with (openTagAttr c s_brname ++ [] ++ [62]) by reflexivity.
+      apply void_safe; [reflexivity|constructor].
     - apply S_text. reflexivity.
   Qed.
 
